@@ -214,6 +214,17 @@ def has_vs_loop(desc):
             comp[a] = b
     return False
 
+def custom_mapper(mode):
+    """a NetworkMapper that orders the non-reference nodes differently from the alphabetic default"""
+    import hashlib
+    from CircuitCalculator.Network.NodalAnalysis.label_mapping import LabelMapping
+    def mapper(network):
+        labs = [l for l in network.node_labels if l != network.node_zero_label]
+        if mode == 'reversed': labs = labs[::-1]
+        else: labs = sorted(labs, key=lambda l: hashlib.sha256((mode + '|' + l).encode()).hexdigest())
+        return LabelMapping({k: v for v, k in enumerate(labs)})
+    return mapper
+
 def has_self_loop(desc):
     return any(d['n1'] == d['n2'] for d in desc['branches'])
 
@@ -332,6 +343,21 @@ def check_port(ctx, out, desc, n1, n2, exact, op='open_circuit_impedance', remov
     else:
         out.count('spec_agrees')
         out.sample(dict(pretty, z=str(impl[1])))
+        # the caller's node mapper: any order of the unknowns must give the same impedance
+        for mode in ('reversed', 'perm-a'):
+            mp = custom_mapper(mode)
+            if removed is None:
+                alt = run_impl(na.open_circuit_impedance, net_full, n1, n2, node_index_mapper=mp)
+            else:
+                alt = run_impl(na.element_impedance, net_full, removed, node_index_mapper=mp)
+            out.evaluations += 1
+            if alt[0] == 'err' or not core.close(alt[1], z, zscale, 1e-7):
+                out.spec_fail(dict(canon, symptom='depends_on_node_mapper', node_mapper=mode),
+                              f'{op} with a custom node_index_mapper ({mode} order of the nodes) gives {alt[1]}, unit-current injection gives {z}',
+                              pretty, impl=dict(value=alt, default=impl[1]), spec=dict(z=spec['z']), case=dict(case, mapper=mode))
+                break
+        else:
+            out.count('custom_mapper_agrees')
     return impl
 
 def check_metamorphic(ctx, out, desc, n1, n2, exact):
@@ -732,6 +758,7 @@ def mk_circuit(comps):
         elif k == 'Vdc': out.append(ccp.dc_voltage_source(c['id'], tuple(c['nodes']), V=c['v'], R=c.get('R', 0)))
         elif k == 'Vac': out.append(ccp.ac_voltage_source(c['id'], tuple(c['nodes']), V=c['v'], w=c['w'], R=c.get('R', 0)))
         elif k == 'Idc': out.append(ccp.dc_current_source(c['id'], tuple(c['nodes']), I=c['v'], G=c.get('G', 0)))
+        elif k == 'Iac': out.append(ccp.ac_current_source(c['id'], tuple(c['nodes']), I=c['v'], w=c['w'], G=c.get('G', 0)))
         elif k == 'gnd': out.append(ccp.ground(nodes=(c['nodes'][0],)))
         else: raise ValueError(k)
     return Circuit(out)
@@ -747,6 +774,37 @@ def net_desc_of(network):
             br.append(dict(n1=b.node1, n2=b.node2, id=b.id, kind='cs_lossy', args=dict(I=complex(e.I), Y=complex(e.Y))))
     return dict(branches=br, zero=network.node_zero_label)
 
+W_RES = 1e-3
+
+def ref_desc(comps, w):
+    """the network the PROPERTY TEXT prescribes for the port impedance of a circuit at angular frequency w — written
+    from the components, not from transform_circuit: every independent source deactivated keeping its internal
+    immittance (voltage source → its internal R, or a short; current source → its internal G, or an open),
+    R ↦ R, Z ↦ Z, L ↦ jwL, C ↦ 1/(jwC)"""
+    br = []; zero = None
+    for c in comps:
+        k = c['kind']
+        if k == 'gnd': zero = c['nodes'][0]; continue
+        a, b = c['nodes'][0], c['nodes'][1]
+        if k == 'R': e = ('vs_lossy', dict(V=0j, Z=complex(c['v'])))
+        elif k == 'Z': e = ('vs_lossy', dict(V=0j, Z=complex(c['v'])))
+        elif k == 'L': e = ('vs_lossy', dict(V=0j, Z=complex(0.0, w * c['v'])))
+        elif k == 'C': e = ('cs_lossy', dict(I=0j, Y=complex(0.0, w * c['v'])))
+        elif k in ('Vdc', 'Vac'): e = ('vs_lossy', dict(V=0j, Z=complex(c.get('R', 0) or 0)))
+        elif k in ('Idc', 'Iac'): e = ('cs_lossy', dict(I=0j, Y=complex(c.get('G', 0) or 0)))
+        else: raise ValueError(k)
+        br.append(dict(n1=a, n2=b, id=c['id'], kind=e[0], args=e[1]))
+    if zero is None: zero = comps[0]['nodes'][0]
+    return dict(branches=br, zero=zero)
+
+def lossy_other_frequency(comps, w):
+    """a source with internal resistance / conductance whose own frequency is not the analysed one"""
+    for c in comps:
+        if c['kind'] in ('Vdc', 'Vac') and (c.get('R', 0) or 0) > 0 or c['kind'] in ('Idc', 'Iac') and (c.get('G', 0) or 0) > 0:
+            ws = 0.0 if c['kind'] in ('Vdc', 'Idc') else float(c['w'])
+            if abs(w - ws) > W_RES: return True
+    return False
+
 def random_circuit(rng):
     n = rng.randint(2, 5)
     nodes = [str(k) for k in range(n)]
@@ -757,21 +815,23 @@ def random_circuit(rng):
         edges.append(tuple(rng.sample(nodes, 2)))
     for a, b in edges:
         if rng.random() < 0.5: a, b = b, a
-        k = rng.choice(['R', 'R', 'L', 'C', 'Z', 'Vdc', 'Vac', 'Idc'])
+        k = rng.choice(['R', 'R', 'L', 'C', 'Z', 'Vdc', 'Vac', 'Idc', 'Iac'])
         i += 1
         c = dict(kind=k, id=f'{k}{i}', nodes=[a, b])
         if k == 'Z': c['v'] = complex(gen_net.exact_real(rng), rng.choice([0.0, gen_net.exact_real(rng), -gen_net.exact_real(rng)]))
         else: c['v'] = gen_net.exact_real(rng)
-        if k == 'Vac': c['w'] = rng.choice([1.0, 2.0, 0.5]); c['R'] = rng.choice([0, 0, 2.0])
-        if k == 'Vdc': c['R'] = rng.choice([0, 0, 4.0])
-        if k == 'Idc': c['G'] = rng.choice([0, 0, 0.5])
+        if k == 'Vac': c['w'] = rng.choice([1.0, 2.0, 0.5]); c['R'] = rng.choice([0, 2.0, 0.5])
+        if k == 'Vdc': c['R'] = rng.choice([0, 4.0, 1.0])
+        if k == 'Idc': c['G'] = rng.choice([0, 0.5, 2.0])
+        if k == 'Iac': c['w'] = rng.choice([1.0, 2.0, 0.5]); c['G'] = rng.choice([0, 0.25, 1.0])
         comps.append(c)
     comps.append(dict(kind='gnd', id='gnd', nodes=[rng.choice(nodes)]))
     return comps
 
 def check_circuit(ctx, out, comps, n1, n2, ws, el=None):
-    """Circuit/impedance.py wrappers: model = sweep of the network-level model over the
-    implementation's own transform_circuit outputs; Spec per frequency"""
+    """Circuit/impedance.py wrappers: model = sweep of the network-level model over the implementation's own
+    transform_circuit outputs (correspondence); Spec per frequency = exact port impedance of the network the
+    property text prescribes (`ref_desc`: sources deactivated keeping their internal immittance)"""
     from CircuitCalculator.Circuit import impedance as cimp
     from CircuitCalculator.Circuit.circuit import transform_circuit
     drv = ctx.driver
@@ -822,8 +882,8 @@ def check_circuit(ctx, out, comps, n1, n2, ws, el=None):
             if dc != ('err', m0['err']) and m0['err'] != 'LinAlgError': out.disagree('circuit.impedance.dc', pretty, dc, m0)
         elif dc[0] == 'err' or not (core.close(dc[1], core.cfloat(m0['ok']), 0.0, 1e-6) or not cmath.isfinite(dc[1])):
             out.disagree('circuit.impedance.dc', pretty, dc, m0)
-    # Spec of the DC wrappers: Re Z(0)
-    nd0 = net_desc_of(net0)
+    # Spec of the DC wrappers: Re Z(0) of the network the property text prescribes (not of transform_circuit's)
+    nd0 = ref_desc(comps, 0.0)
     a1, a2 = n1, n2
     ok0 = True
     if el is not None:
@@ -838,7 +898,8 @@ def check_circuit(ctx, out, comps, n1, n2, ws, el=None):
         if spec0['defined']:
             f0 = port_facts(nd0, a1, a2)
             z0 = core.cfloat(spec0['z'])
-            canon0 = dict(op='circuit_dc_resistance' if el is None else 'circuit_element_dc_resistance', **flags(f0))
+            canon0 = dict(op='circuit_dc_resistance' if el is None else 'circuit_element_dc_resistance',
+                          lossy_other_frequency=lossy_other_frequency(comps, 0.0), **flags(f0))
             out.nontrivial(('dc', len(comps), f0['ideal_vs_elsewhere'], f0['zero_row_node'], f0['floating_island'], el is None))
             if dc[0] == 'err':
                 out.spec_fail(dict(canon0, symptom='raises', exc=dc[1]), f'DC resistance wrapper raises {dc[1]}; Re Z(0) is {z0.real}', pretty,
@@ -850,7 +911,7 @@ def check_circuit(ctx, out, comps, n1, n2, ws, el=None):
                 out.count('dc_spec_agrees')
     # Spec per frequency
     for k, N in enumerate(nets):
-        nd = net_desc_of(N)
+        nd = ref_desc(comps, ws[k])
         if el is not None:
             b = [x for x in nd['branches'] if x['id'] == el]
             if not b: continue
@@ -866,7 +927,8 @@ def check_circuit(ctx, out, comps, n1, n2, ws, el=None):
         facts = port_facts(nd, a1, a2)
         out.nontrivial(('circuit', len(comps), ws[k] == 0, facts['ideal_vs_elsewhere'], facts['zero_row_node'], facts['floating_island'], el is None))
         z = core.cfloat(spec['z'])
-        canon = dict(op='circuit_impedance' if el is None else 'circuit_element_impedance', **flags(facts))
+        canon = dict(op='circuit_impedance' if el is None else 'circuit_element_impedance',
+                     lossy_other_frequency=lossy_other_frequency(comps, ws[k]), **flags(facts))
         # the wrapper evaluated at this single frequency (an exception at another frequency of the
         # sweep, where the port may be undefined, says nothing about this one)
         w1 = np.array([ws[k]], dtype=float)
@@ -899,6 +961,28 @@ def raw_json(nd):
             e = dict(k='T', a=core.qc(d['args']['Y']), b=core.qc(d['args']['I']))
         br.append(dict(n1=d['n1'], n2=d['n2'], id=d['id'], ty='', e=e))
     return dict(branches=br, zero=nd['zero'])
+
+def check_dc_closed_forms(ctx, out):
+    """DC wrappers on ports whose DC impedance is complex or has a negative real part: Re Z(0), not |Z(0)|"""
+    from CircuitCalculator.Circuit import impedance as cimp
+    for Z in (complex(3, -4), complex(-2, 1), complex(-5, 0), complex(0, 7), complex(1.5, 2)):
+        out.evaluations += 1
+        comps = [dict(kind='Z', id='Z1', nodes=['a', 'g'], v=Z), dict(kind='Z', id='Z2', nodes=['a', 'g'], v=2 * Z),
+                 dict(kind='gnd', id='gnd', nodes=['g'])]
+        want = (Z * 2 * Z / (3 * Z)).real
+        pretty = dict(circuit=f'Z1={Z} || Z2={2 * Z}', port=['a', 'g'])
+        case = dict(kind='dc_closed_form')
+        out.nontrivial(('dc_closed_form', str(Z)))
+        for name, f, w in (('circuit_dc_resistance', lambda c: cimp.open_circuit_dc_resistance(c, 'a', 'g'), want),
+                           ('circuit_element_dc_resistance', lambda c: cimp.element_dc_resistance(c, 'Z1'), (2 * Z).real)):
+            got = run_impl(f, mk_circuit(comps))
+            if got[0] == 'err' or not core.close(got[1], w, abs(Z), 1e-9):
+                out.spec_fail(dict(op=name, symptom='wrong_value' if got[0] == 'ok' else 'raises', lossy_other_frequency=False,
+                                   ideal_vs_elsewhere=False, zero_row_node=False, floating_island=False),
+                              f'{name}: {got[1]}, Re Z(0) = {w}', pretty, impl=dict(value=got), spec=dict(re_z=w), case=case)
+                break
+        else:
+            out.count('dc_closed_form_agrees')
 
 def check_closed_forms(ctx, out):
     """R + jwL + 1/(jwC) over a sweep; series and parallel composition"""
@@ -950,6 +1034,18 @@ def gen_floating(rng, desc):
         br.append(dict(n1=a, n2=c, id=fresh_id(dict(branches=br), f'O{t}'), **b))
     rng.shuffle(br)
     return dict(branches=br, zero=desc['zero'])
+
+CIRCUIT_CORPUS = [
+    # audit: internal R / G of a source at a foreign frequency (open finding, root cause C09-3)
+    ([dict(kind='Vdc', id='V', nodes=['1', '0'], v=1.0, R=4.0), dict(kind='R', id='R', nodes=['1', '0'], v=4.0), dict(kind='gnd', id='gnd', nodes=['0'])], '1', '0', [0.0, 1.0], None),
+    ([dict(kind='Idc', id='I', nodes=['0', '1'], v=1.0, G=0.25), dict(kind='R', id='R', nodes=['1', '0'], v=4.0), dict(kind='gnd', id='gnd', nodes=['0'])], '1', '0', [0.0, 1.0], None),
+    ([dict(kind='Vac', id='V', nodes=['1', '0'], v=1.0, R=4.0, w=5.0), dict(kind='R', id='R', nodes=['1', '2'], v=4.0), dict(kind='R', id='R2', nodes=['2', '0'], v=4.0),
+      dict(kind='gnd', id='gnd', nodes=['0'])], '2', '0', [0.0, 5.0], None),
+    ([dict(kind='Vac', id='V', nodes=['1', '0'], v=1.0, R=4.0, w=5.0), dict(kind='R', id='R', nodes=['1', '2'], v=4.0), dict(kind='R', id='R2', nodes=['2', '0'], v=4.0),
+      dict(kind='gnd', id='gnd', nodes=['0'])], '2', '0', [0.0, 5.0], 'R2'),
+    ([dict(kind='Iac', id='I', nodes=['0', '1'], v=1.0, G=0.5, w=2.0), dict(kind='R', id='R', nodes=['1', '0'], v=2.0), dict(kind='C', id='C', nodes=['1', '0'], v=0.5),
+      dict(kind='gnd', id='gnd', nodes=['0'])], '1', '0', [0.0, 2.0, 3.0], None),
+]
 
 CORPUS = [
     # unit scales: 1 GΩ / 1 GΩ divider fed through 50 Ω — Z(mid, 0) = 0.5 GΩ (+25 Ω)
@@ -1017,6 +1113,9 @@ def run(ctx, out):
     es = check_equivalent_sources_module(ctx, out)
     ES[0] = es
     check_closed_forms(ctx, out)
+    check_dc_closed_forms(ctx, out)
+    for comps, n1, n2, ws, el in CIRCUIT_CORPUS:
+        check_circuit(ctx, out, comps, n1, n2, ws, el=el)
     for desc in CORPUS:
         run_network(ctx, out, desc, True, ctx.rng('corpus'), None, True)
         if es is not None:
@@ -1086,6 +1185,8 @@ def replay(ctx, out, rp):
         check_equivalent(ctx, out, case['desc'], case['n1'], case['n2'], case.get('exact', True), ctx.rng('replay'))
     elif k == 'circuit':
         check_circuit(ctx, out, case['comps'], case['n1'], case['n2'], case['ws'], el=case.get('el'))
+    elif k == 'dc_closed_form':
+        check_dc_closed_forms(ctx, out)
     elif k == 'closed_form':
         check_closed_forms(ctx, out)
     elif k == 'import':
